@@ -36,8 +36,10 @@ def gen(rng, k):
             op['edcp'] = rng.choice([6, 7])
         elif fail == 'absent':
             op['absent'] = True
-            op['timeout'] = rng.choice([0.2, 0.4, 1, 2])
+            op['timeout'] = rng.choice([0, 0.2, 0.4, 1, 2])       # (0: the caller does not want to wait at all)
         ops.append(op)
+    if seedkey and not wrong_client and len(ops) >= 2 and rng.random() < 0.35:
+        ops[rng.randrange(1, len(ops))]['rekey'] = True
     return dict(kind='dm14', ops=ops, seedkey=seedkey, client_wrong_key=wrong_client,
                 seeds=[rng.choice([0x0001, 0xFFFE, 0xA55A, rng.randint(1, 0xFFFE)]) for _ in range(12)],
                 lat=[rng.choice([1, 500])], horizon=1000 + len(ops) * 9_000_000, max_cmdt=8)
@@ -85,7 +87,8 @@ def oracle(sc, res):
                           earlier=[('absent' if o.get('absent') else 'refuse' if o.get('refuse_proceed') else 'respond_false' if o.get('respond_false') is not None else 'ok') for o in sc['ops'][:i]]))
         elif op['kind'] == 'read' and r[1] != list(op['server_data']):
             v.append(dict(kind='read-returns-wrong-data', op=i, got=r[1], expected=op['server_data']))
-        if sc.get('seedkey') and pro and pro[0]['key'] != dm14h.key_fn(pro[0]['seed']):
+        right = dm14h.key_fn2 if any(o.get('rekey') for o in sc['ops'][:i + 1]) else dm14h.key_fn      # the algorithm in force at that operation
+        if sc.get('seedkey') and pro and pro[0]['key'] != right(pro[0]['seed']):
             v.append(dict(kind='request-served-without-right-key', op=i, key=pro[0]['key'], seed=pro[0]['seed']))
     for j, js in enumerate(res.job):
         if js != 'alive':
